@@ -734,11 +734,13 @@ def gen_adversarial(rnd):
     """Scripts built around cyclic / dangling / duplicate references."""
     g = Gen(rnd, 0.3)
     L = [['house', 'h1']]
-    k = rnd.randrange(18)
+    k = rnd.randrange(20)
     if k == 15:
         k = 14
     if k == 17:
         k = 16
+    if k == 19:
+        k = 18
     names = list(FRAMES)
     rnd.shuffle(names)
     n = rnd.randint(2, 5)
@@ -925,6 +927,25 @@ def gen_adversarial(rnd):
             line += [g.ch(srcs[:2] if rnd.random() < 0.85 else srcs)]
             L.append(line)
         L += [['framer', 'fa', 'be', 'active'], ['frame', 'a'], ['print', 'hi']]
+    elif k == 18:   # a tasker that is no framer (a logger) named wherever a framer name is expected
+        other = g.ch(['blackbox', 'blackbox', 'helper', 'zz'])
+        L.append(['logger', 'blackbox', 'to', '/dev/null/vp14'])
+        L += [['framer', 'fa', 'be', 'active'], ['frame', 'a']]
+        for _ in range(rnd.randint(1, 3)):
+            L.append(g.ch([
+                ['go', 'b', 'if', 'aux', 'helper', 'in', 'framer', other, 'is', 'done'],
+                ['go', 'b', 'if', g.ch(['any', 'all']), 'in', 'frame', g.ch(['a', 'b', 'ha']), 'in', 'framer', other, 'is', 'done'],
+                ['go', 'b', 'if', 'aux', 'helper', 'in', 'frame', 'a', 'in', 'framer', other, 'is', 'done'],
+                ['go', 'b', 'if', other, 'is', 'done'],
+                ['go', 'b', 'if', 'aux', other, 'is', 'done'],
+                ['aux', other], ['aux', other, 'if', '.x', '==', '1'], ['aux', other, 'as', g.ch(['mine', 'cl'])],
+                ['rear', other, 'as', 'mine', 'be', 'aux', 'in', 'frame', 'a'],
+                ['done', other], [g.ch(['ready', 'start', 'run', 'stop', 'abort']), other],
+                ['bid', g.ch(['start', 'stop', 'run']), other],
+                ['go', 'b', 'if', 'elapsed', 're', other, '>=', '1'],
+                ['put', '1', 'into', 'x', 'of', 'framer', other],
+            ]))
+        L += [['frame', 'b'], ['print', 'hi'], ['framer', 'helper', 'be', 'aux'], ['frame', 'ha'], ['print', 'h']]
     else:           # a generated program plus extra structural commands with loose references
         L = Gen(rnd, 0.5).program()
     return L
